@@ -1,0 +1,9 @@
+//go:build verif
+
+package detector
+
+// Re-exports of unexported helpers for the verification harness. Forwarding only.
+
+func VerifGetSpatialIdAttrs(spatialId string) (int, int, int, int, error) {
+	return getSpatialIdAttrs(spatialId)
+}
